@@ -932,7 +932,11 @@ type _structAssemblerRepr _structAssembler
 func (w *_structAssemblerRepr) AssembleKey() datamodel.NodeAssembler {
 	switch stg := reprStrategy(w.schemaType).(type) {
 	case schema.StructRepresentation_Map:
-		return (*_structAssembler)(w).AssembleKey()
+		asm := (*_structAssembler)(w).AssembleKey()
+		w.curKey.finish = func() error { // the key arrives in its serial form
+			return (*_structAssembler)(w).repeatedField(inboundMappedKey(w.schemaType, stg, w.curKey.val.String()))
+		}
+		return asm
 	case schema.StructRepresentation_Stringjoin,
 		schema.StructRepresentation_StringPairs:
 		// TODO: perhaps the ErrorWrongKind type should also be extended to explicitly describe whether the method was applied on bare DM, type-level, or repr-level.
@@ -1047,8 +1051,7 @@ func (w *_listStructAssemblerRepr) AssembleValue() datamodel.NodeAssembler {
 			}}
 		}
 		field := fields[w.nextIndex]
-		w.doneFields[w.nextIndex] = true
-		w.nextIndex++
+		w.nextIndex++ // the field is marked done by the struct assembler's AssembleValue below
 
 		entryAsm, err := (*_structAssembler)(w).AssembleEntry(field.Name())
 		if err != nil {
